@@ -635,3 +635,27 @@ def analyse(paths, classify=None, skip_site=None):
                     last[0][1][-60:] if last else "?"), "site": site, "cls": "request", "ops": (),
                     "facts": [(show(x[1])[:100], x[2]) for x in p.trace if x[0] == "cond"][-6:]}
     return total, done, list(seen.values())
+
+
+def violated(kind, ops, facts):
+    """True when the facts entail that the obligation FAILS (the complement of discharge): used to show that a rejecting guard
+    rejects only inputs on which a later read would go out of bounds"""
+    ops = tuple(norm_first(fold_fixed_lens(o)) if isinstance(o, tuple) else o for o in ops)
+    one = mk_const("usize", 1)
+    if kind == "SliceIndex":
+        base, lo, hi = ops
+        L = fold_fixed_lens(len_term(base))
+        if hi is None:
+            return facts.lt(L, lo)
+        return facts.lt(L, hi) or facts.lt(hi, lo)
+    if kind in ("ElemIndex", "BoundsCheck"):
+        if kind == "BoundsCheck":
+            L, idx = ops
+        else:
+            base, idx = ops
+            L = fold_fixed_lens(len_term(base))
+        return facts.le(L, idx)
+    if kind == "Overflow:Sub":
+        a, b = ops
+        return facts.lt(a, b)
+    return False
